@@ -59,6 +59,12 @@ pub fn run(scenarios: &[J], out: &mut dyn Write, scratch: &Path) -> J {
                     }
                     "setvec" => {
                         let e = e.ok_or("closed")?;
+                        // the model's choice of levels, one per item (absent = drawn at random by the index)
+                        if let Some(ls) = st.get("levels").and_then(|x| x.as_array()) {
+                            if let Some(o) = crate::obs::GLOBAL.get() {
+                                *o.hnsw_levels.lock().unwrap() = Some(ls.iter().map(|x| x.as_u64().unwrap() as u8).collect());
+                            }
+                        }
                         let mut tx = e.begin_write();
                         for it in st["items"].as_array().unwrap() {
                             let v: Vec<f32> = it[1].as_array().unwrap().iter().map(|x| x.as_f64().unwrap() as f32).collect();
